@@ -18,6 +18,8 @@ ASSUMPTIONS = [
     "output-clock edge is not judged (ambiguous), an asynchronous assertion coincident with one is.",
     "Async/Reset synchroniser output is judged from the first assertion onwards (power-on state is not in the statement).",
     "PulseSynchronizer runs that break the stated precondition (no output edge strictly between two input pulses) are not judged.",
+    "FFSynchronizer with a signed input: the output shows the stage value extended by the input's signedness and cut to the "
+    "output's width. A fifth of the runs elaborate and simulate the very same design object a second time (identical trace).",
     "FFSynchronizer under a reset of its output domain (pulsed at arbitrary instants, in its own step): with reset_less=False "
     "every stage returns to the initial value at each output edge at which the reset is asserted and refills afterwards (the "
     "output shows the initial value for `stages` edges again); with reset_less=True (default) the reset has no effect.",
@@ -27,7 +29,8 @@ COMPONENTS = {"real": ["amaranth.lib.cdc.FFSynchronizer", "AsyncFFSynchronizer",
               "stub": ["PermSet scheduler seam", "clock / async-input driver (bus wrapper)",
                        "shift-register, release-count and pulse-count models"]}
 EXPECTED_PROBES = ("coincide", "stall", "ratio", "glitch-in", "inactive", "async_short_pulse", "reassert_during_release",
-                   "released", "pulses", "back_to_back_pulses", "reset", "ff_reset_applied", "ff_reset_ignored_reset_less")
+                   "released", "pulses", "back_to_back_pulses", "reset", "ff_reset_applied", "ff_reset_ignored_reset_less",
+                   "reuse", "ff_signed_input_wider_output", "refusal_with_legal_sibling_before", "refusal_with_legal_sibling_after")
 
 PW = [(0.5,), (0.15,), (0.85,), (1.0,)]
 
@@ -91,6 +94,8 @@ def gen_case(seed, tier):
         w = cfg.choice([0, 1, 1, 2, 3, 4, 8])
         config.update(width=w, init=cfg.randrange(1 << w), o_edge=cfg.choice(["pos", "neg"]),
                       reset_less=cfg.random() < 0.7)
+        # a signed input into a wider (signed or unsigned) output: every stage must keep the input's shape
+        config.update(i_signed=(w >= 1 and cfg.random() < 0.35), o_extra=cfg.choice([0, 0, 1, 3]), o_signed=cfg.random() < 0.5)
         levels = {"o": 0, "x": 0}
         p_set = wl.choice([0.2, 0.5, 0.9, 1.5])
         p_rst = fl.choice([0, 0, 0.03, 0.1])
@@ -115,6 +120,8 @@ def gen_case(seed, tier):
         # the primitive needs a rising-edge output domain and must refuse a falling-edge one wherever it is defined, e.g.
         # in a submodule, shadowing a rising-edge domain of the same name above it
         config["shadow_neg"] = cfg.random() < 0.08
+        # ... or when another, legal, instance of the primitive was added to the design before / after the offending one
+        config["shadow_sibling"] = cfg.choice([None, "before", "after"])
         levels = {"o": 0, "x": 0, "a": 0}
         p_a = wl.choice([0.05, 0.15, 0.4])
         for which in _clock_walk(wl, fl, ("o", "x"), nsteps, levels):
@@ -177,7 +184,7 @@ def gen_case(seed, tier):
             if i_edge and i_val:
                 pending = True
     return {"config": config, "sched": {"mode": sc.choice(["seeded", "seeded", "reverse", "insertion"]),
-                                        "seed": sc.randrange(1 << 32)}, "steps": steps}
+                                        "seed": sc.randrange(1 << 32)}, "steps": steps, "reuse": fl.random() < 0.2}
 
 
 def _first_edge(period, phase, edge):
@@ -299,10 +306,19 @@ def run_case(case):
     P = stats["probes"]
     extra_lines = None
     if kind == "ff":
-        i = Signal(config["width"], name="i")
-        o = Signal(config["width"], name="o")
-        dut = cdc.FFSynchronizer(i, o, o_domain="o", init=config["init"], stages=stages,
+        from amaranth.hdl import signed, unsigned
+        w_ = config["width"]
+        i_signed = bool(config.get("i_signed")) and w_ >= 1
+        ow_ = w_ + config.get("o_extra", 0)
+        i = Signal(signed(w_) if i_signed else unsigned(w_), name="i")
+        o = Signal(signed(ow_) if (config.get("o_signed") and ow_ >= 1) else unsigned(ow_), name="o")
+        init_ = config["init"] - (1 << w_) if (i_signed and config["init"] >> (w_ - 1)) else config["init"]
+        dut = cdc.FFSynchronizer(i, o, o_domain="o", init=init_, stages=stages,
                                  reset_less=config["reset_less"])
+        if i_signed:
+            P["ff_signed_input"] = 1
+            if ow_ > w_:
+                P["ff_signed_input_wider_output"] = 1
         domains = [DomainSpec("o", edge=config["o_edge"]), DomainSpec("x")]
     elif kind == "async":
         i = Signal(name="i")
@@ -337,11 +353,23 @@ def run_case(case):
                 m.submodules.inner = inner
                 return m
 
+        sib_where = config.get("shadow_sibling")
+
         class Outer(Elaboratable):
             def elaborate(self, platform):
                 m = Module()
                 m.domains.o = ClockDomain("o")
+                m.domains.ok = ClockDomain("ok")
+                if sib_where:
+                    # a legal instance on a rising-edge domain, added before or after the offending one
+                    si, so = Signal(name="sib_i"), Signal(name="sib_o")
+                    sib = cdc.AsyncFFSynchronizer(si, so, o_domain="ok") if kind == "async" else cdc.ResetSynchronizer(si, domain="ok")
+                    P["refusal_with_legal_sibling_" + sib_where] = 1
+                if sib_where == "before":
+                    m.submodules.sib = sib
                 m.submodules.sub = Shadow()
+                if sib_where == "after":
+                    m.submodules.sib = sib
                 return m
 
         def refuse():
@@ -374,6 +402,18 @@ def run_case(case):
         # models
         sr = [config.get("init", 0)] * stages
         mask = (1 << config.get("width", 1)) - 1
+        o_sig = drv.top.cds["o"].rst if kind == "reset" else o
+        omask = (1 << len(o_sig)) - 1
+
+        def get_o():
+            return drv.get(o_sig) & omask
+
+        def ext(v):
+            """a stage's bit pattern as the output shows it: extended by the input's signedness, cut to the output's width"""
+            w_ = config.get("width", 1)
+            if kind == "ff" and config.get("i_signed") and w_ >= 1 and (v >> (w_ - 1)) & 1:
+                v -= 1 << w_
+            return v & omask
         a_edge = config.get("async_edge", "pos")
         asserted = (a_edge == "neg") if kind in ("async", "reset") else False
         armed = asserted
@@ -384,8 +424,8 @@ def run_case(case):
         ocycles = 0
         pending = False
         stop = False
-        last_o = drv.get(o)
-        if kind == "ff" and last_o != (config["init"] & mask):
+        last_o = get_o()
+        if kind == "ff" and last_o != ext(config["init"] & mask):
             raise Violation("ff_initial_output", -1, {"o": last_o, "init": config["init"]})
         if kind == "pulse" and last_o != 0:
             raise Violation("pulse_initial_output", -1, {"o": last_o})
@@ -408,7 +448,8 @@ def run_case(case):
                 v = st["i"] & mask
                 if v != i_val:
                     i_val = v
-                    drv.set(i, v)
+                    w_ = config.get("width", 1)
+                    drv.set(i, v - (1 << w_) if (kind == "ff" and config.get("i_signed") and w_ >= 1 and v >> (w_ - 1)) else v)
                 sets_since += 1
                 if sets_since == 2:
                     stats["faults"]["glitch-in"] += 1
@@ -511,13 +552,14 @@ def run_case(case):
                         pending = False
             if stop:
                 break
-            cur = drv.get(o)
+            cur = get_o()
             if cur != last_o:
                 P["out_changes"] += 1
             # oracles
             if kind == "ff":
-                if cur != sr[-1]:
-                    raise Violation("ff_latency", idx, {"o": cur, "expected": sr[-1], "stages": stages, "chain": list(sr)})
+                if cur != ext(sr[-1]):
+                    raise Violation("ff_latency", idx, {"o": cur, "expected": ext(sr[-1]), "stages": stages, "chain": list(sr),
+                                                        "input_signed": bool(config.get("i_signed")), "o_width": len(o)})
             elif kind in ("async", "reset"):
                 if armed and judged:
                     if asserted:
@@ -542,6 +584,14 @@ def run_case(case):
             raise Violation("pulse_count", len(steps) - 1, {"out_cycles": ocycles, "in_pulses": pulses, "stages": stages})
 
     run_guarded(res, lambda: run.run(body))
+    if res.violation is None and res.harness_error is None and case.get("reuse"):
+        # second use of the very same design object: elaborated and simulated again, it must behave identically
+        first = dig.restart()
+        run2 = ManualRun(dut, domains, sched_mode=case["sched"]["mode"], sched_seed=case["sched"]["seed"], extra_lines=extra_lines)
+        run_guarded(res, lambda: run2.run(body))
+        stats["faults"]["reuse"] = stats["faults"].get("reuse", 0) + 1
+        if res.violation is None and dig.hexdigest() != first:
+            res.violation = {"oracle": "second_use_of_same_object_differs", "step": -1, "detail": {}}
     stats["decisions"] = run.decisions
     dig.add_events(run.events)
     nontrivial = P["out_changes"] > 0 and any(stats["faults"].values())
